@@ -126,6 +126,36 @@ func (c *Ctx) Actor(name string, f func()) *simrt.Task {
 	})
 }
 
+// RelayActor runs body(0), …, body(n-1) like one sequential driver, but in some
+// runs on two goroutines that take turns, handing over through the simulator
+// only (no client-side synchronisation): the order of the calls and the model
+// the driver owns stay exact, while the race detector sees calls of the same
+// kind made by different goroutines with nothing but the library between them.
+func (c *Ctx) RelayActor(name string, n int, body func(i int)) []*simrt.Task {
+	if n < 2 || !c.S.PlanP(350) {
+		return []*simrt.Task{c.Actor(name, func() {
+			for i := 0; i < n && !c.Failed(); i++ {
+				body(i)
+			}
+		})}
+	}
+	c.S.Count("probe:relay-driver")
+	turn := 0
+	mk := func(k int) *simrt.Task {
+		return c.Actor(fmt.Sprintf("%s/%d", name, k), func() {
+			for i := k; i < n; i += 2 {
+				c.S.WaitCond(name+".turn", func() bool { return turn >= i || c.Failed() })
+				if c.Failed() {
+					return
+				}
+				body(i)
+				turn = i + 1
+			}
+		})
+	}
+	return []*simrt.Task{mk(0), mk(1)}
+}
+
 func (c *Ctx) panicOracle() string {
 	if c.PanicOracle != "" {
 		return c.PanicOracle
